@@ -28,6 +28,11 @@ META = {
 }
 
 
+# method names that only look like operator names: an operator name as prefix / suffix / in other case
+NEAR_MISSES = ["Result", "ResultParquet", "ResultTTrees", "Results", "Counter", "CountAll", "First1", "FirstOrDefault", "Sum_", "MinMax", "PreSelect", "aSelect", "Selected",
+               "WhereNot", "Aggregates", "SELECT", "count", "Maximum"]
+
+
 def decorate(rnd, q):
     """Insert decoys: non-operator methods of the same shape, operator names as plain attributes / names."""
     feats = set()
@@ -46,7 +51,7 @@ def decorate(rnd, q):
                 feats.add("decoy-method-same-shape")
                 # (cmp, seq.Filter(lambda z: z))[0]
                 return ast.Subscript(
-                    value=ast.Tuple(elts=[m, ast.Call(func=attr(N("EventDataset"), rnd.choice(["Filter", "select", "where", "SelectAll"])), args=[lam(["z"], N("z"))], keywords=[])], ctx=ast.Load()),
+                    value=ast.Tuple(elts=[m, ast.Call(func=attr(N("EventDataset"), rnd.choice(["Filter", "select", "where", "SelectAll"] + NEAR_MISSES)), args=[lam(["z"], N("z"))], keywords=[])], ctx=ast.Load()),
                     slice=C(0), ctx=ast.Load())
             return m
         if isinstance(n, list):
@@ -189,6 +194,12 @@ def judge(ctx, q, data, info):
         except Exception as e:
             ctx.violation(f"text-born-result-does-not-compile:{type(e).__name__}", f"{layout}: {type(e).__name__}: {str(e)[:120]} | in: {text[:300]}", witness)
             return
+    if ctx.rnd.random() < 0.3:
+        # history: the consumer edits the converted query in place; the next conversion is none of its business
+        from ..history import vandalise
+
+        vandalise(out)
+        ctx.count("results-edited-in-place-by-their-consumer")
     if len(ctx.samples) < 4 and len(mc) >= 2 and ctx.rnd.random() < 0.03:
         ctx.sample({"in": witness["query"], "out": astx.unparse(out)})
 
@@ -197,6 +208,7 @@ SNIPPET_TEXTS = [
     "ds.Count()", "cfg.jets.Where(lambda j: j.pt > cfg.cut)", "cfg.jets.Select(lambda a: a.trks.Count()).First()", "Count(cfg.jets)",
     "cfg.jets.Select(lambda j: j.pt).Sum()", "ds.Select(lambda e: e.x).Max()", "cfg.jets.select(lambda j: j.pt)", "ds.SelectMany(lambda e: e.jets).Count()",
     "cfg.trks.Aggregate(0, lambda a, b: a + b)", "cfg.jets.First(default=cfg.jets.Count())",
+    "fit.Result()", "cfg.jets.ResultParquet('f', ['c'])", "cfg.jets.Counter().Count()", "cfg.jets.Selected(lambda j: j.trks.Count())", "cfg.FirstOrDefault(cfg.jets.First())",
 ]
 SNIPPETS = [(lambda rnd, t=t: astx.parse_expr(t)) for t in SNIPPET_TEXTS]
 
